@@ -16,7 +16,8 @@ from vlib import strategies as S
 
 PROPERTY = "C17"
 RULE = ("Hypothesis-generated circuits over each format's supported gate set (IonQ JSON: H X Y Z S T RX RY RZ PHASE SWAP XX CRX CRY CRZ "
-        "CPHASE CX CY CZ CNOT with 1-3 controls; ProjectQ text: H X Y Z S T RX RY RZ PHASE CNOT), 1-6 qubits, idle qubits, fixed width, "
+        "CPHASE CX CY CZ CNOT with 1-3 controls; ProjectQ text: H X Y Z S T RX RY RZ PHASE CNOT), registers of 1-6, 9-12, 20, 33, 101 qubits with the "
+        "gates on the lowest, highest or spread (multi-digit) indices, idle inner and top qubits, fixed width, "
         "parameters from [-4pi,4pi], multiples of pi/4, 1e-20, 1e17, -0.0, 5e-324, 1.8e308, ints, numpy float64; export then import and compare "
         "field by field (parameters bit-identical); circuits containing >=1 gate outside the set must be refused with ValueError on export. "
         "Gate repr/eval: every built-in name + custom names, int/list/ndarray targets and controls, float/int/numpy/str/empty/dict-of-gates "
@@ -65,14 +66,36 @@ def same_param(a, b):
 angle_st = st.one_of(S.angles(), st.sampled_from(SPECIAL_ANGLES), st.floats(allow_nan=False, allow_infinity=False))
 
 
+WIDTHS = st.one_of(st.integers(1, 6), st.integers(1, 6), st.sampled_from([9, 10, 11, 12]), st.sampled_from([9, 10, 11, 12]), st.sampled_from([20, 33, 101]))
+
+
 @st.composite
 def rt_circuits(draw, names, max_width, max_gates, max_controls, fixed=None):
-    """fixed=False: width inferred from the gates; True: n_qubits always given (0-2 idle top qubits); None: mixed."""
+    """Gates are drawn on a few logical qubits and then placed on a register of 1-6, 9-12, 20, 33 or 101 qubits: on its lowest
+    indices, on its highest indices, or spread (two- and three-digit indices; widths are just integers for these formats).
+    fixed=False: width inferred from the gates; True: n_qubits always given (the register size, or 0-2 idle top qubits);
+    None: mixed."""
     c = draw(S.circuits(max_width=max_width, max_gates=max_gates, names=names, max_controls=max_controls, angle=angle_st,
-                        allow_fixed=fixed is None))
-    if fixed:
-        used = 1 + max([max(g["t"] + (g["c"] or [])) for g in c["gates"]], default=-1)
-        c["nq"] = max(used, 1) + draw(st.integers(0, 2))
+                        allow_fixed=False))
+    used = 1 + max([max(g["t"] + (g["c"] or [])) for g in c["gates"]], default=-1)
+    W = max(draw(WIDTHS), used, 1)
+    place = draw(st.sampled_from(["low", "high", "spread"]))
+    if place == "low" or used == 0:
+        phys = list(range(used))
+    elif place == "high":
+        phys = list(range(W - used, W))
+    else:
+        phys = sorted(draw(st.lists(st.integers(0, W - 1), unique=True, min_size=used, max_size=used)))
+        phys = draw(st.permutations(phys)) if draw(st.booleans()) else phys
+    for g in c["gates"]:
+        g["t"] = [phys[q] for q in g["t"]]
+        g["c"] = [phys[q] for q in g["c"]] if g["c"] else None
+    top = 1 + max([max(g["t"] + (g["c"] or [])) for g in c["gates"]], default=-1)
+    if fixed or (fixed is None and draw(st.integers(0, 3)) == 0):
+        c["nq"] = draw(st.sampled_from([W, W, max(top, 1) + draw(st.integers(0, 2))]))
+        c["nq"] = max(c["nq"], top, 1)
+    else:
+        c["nq"] = None
     for g in c["gates"]:
         if g["p"] is not None:
             g["pt"] = draw(st.sampled_from(["float", "float", "npfloat", "int"]))
@@ -133,6 +156,11 @@ def circuit_labels(case):
         out.add("idle-inner-qubit")
     if not case["gates"]:
         out.add("empty")
+    out.add("width:" + ("1-6" if n <= 6 else ("7-9" if n <= 9 else ("10-12" if n <= 12 else ("13-99" if n < 100 else "100+")))))
+    if n > used and n >= 11 and used <= 10:
+        out.add("idle-top-qubits-across-10")
+    if any(q >= 10 for g in case["gates"] for q in g["t"] + (g["c"] or [])):
+        out.add("multi-digit-index")
     for g in case["gates"]:
         out.add("gate:" + g["n"])
         if g["c"] and len(g["c"]) > 1:
